@@ -33,7 +33,7 @@ CLAIMS.update({
               "CRC-24Q by the spec definition; the message's payload is that slice minus 3+3 bytes. The loop is cut at an invariant, "
               "so stream length, noise and fault placement are unbounded."),
         design_ref="DESIGN.md 5/C01",
-        note=BASE_TRUST + "Assumed: the stream honours the read/readline contract of DESIGN 3.1 (C11 proves SocketWrapper refines it). "
+        note=BASE_TRUST + "Assumed for a caller-supplied stream: the read/readline contract of DESIGN 3.1; for the library's own SocketWrapper (plain and chunked) it is discharged in this check: the wrapper's function units (safety obligations) plus the refinement lemmas over their contracts (lemma.refines.SocketWrapper.*). "
              "Non-overlap/in-order is the corollary of the proved monotone ghost position.",
         technique="VC generation from the real AST, modular contracts + loop invariant over ghost stream position; z3",
     ),
@@ -204,8 +204,10 @@ CLAIMS.update({
         text=("SocketWrapper is verified against a trusted recv() contract whose nondeterminism covers every segmentation, buffer size and "
               "placement of timeouts / OS errors: class invariant _buffer == net[delivered : received] (established by __init__, preserved "
               "by _recv in both outcomes - a failed receive changes nothing - and by read/readline); read returns exactly the next num "
-              "bytes or b'' after a failed receive; readline the bytes through the first LF. Hence it refines the stream contract the "
-              "reader is verified against, and RTCMReader.__init__ is proved to wrap sockets."),
+              "bytes or b'' after a failed receive; readline the bytes through the first LF. That it refines the stream contract the "
+              "reader is verified against is mechanised as lemmas over the contracts (lemma.refines.SocketWrapper.read/readline: every "
+              "outcome the wrapper contracts allow is one the stream contract allows, and the invariant holds again), and "
+              "RTCMReader.__init__ is proved to wrap sockets."),
         design_ref="DESIGN.md 5/C11",
         note=BASE_TRUST + "Assumed: socket.recv contract; liveness of the peer for termination; plain mode (chunked: C12).",
         technique="VC generation from the real AST; class invariant + loop invariants over ghost network stream; z3",
